@@ -756,7 +756,9 @@ func (c *StreamIterators) compactColumn(dstIdx int, ref record.Field, needCalPre
 	// merge column ref
 	_ = c.colBuilder.initEncoder(ref)
 	splitFile = false
-	id := c.chunkItrs[c.iteratorStart].curtChunkMeta.sid
+	// every iterator of chunkItrs holds the same series; iteratorStart may be len(chunkItrs) when only buffered rows of
+	// the previous file are left
+	id := c.chunkItrs[0].curtChunkMeta.sid
 	segmentN := 0
 	lastSegRows := c.lastSeg.RowNums()
 	if lastSegRows > 0 {
@@ -770,6 +772,10 @@ func (c *StreamIterators) compactColumn(dstIdx int, ref record.Field, needCalPre
 		col.Init()
 	}
 
+	// also needed when the loop below has nothing left to do and only the buffered rows are written
+	c.colBuilder.cm = &c.dstMeta
+	c.colBuilder.colMeta = &c.dstMeta.colMeta[dstIdx]
+
 	for itrIndex := c.iteratorStart; itrIndex < len(c.chunkItrs); itrIndex++ {
 		itr := c.chunkItrs[itrIndex]
 		if c.isClosed() {
@@ -781,16 +787,18 @@ func (c *StreamIterators) compactColumn(dstIdx int, ref record.Field, needCalPre
 		tm := srcMeta.TimeMeta()
 		var srcColMeta *ColumnMeta
 
-		c.colBuilder.cm = &c.dstMeta
-		c.colBuilder.colMeta = &c.dstMeta.colMeta[dstIdx]
-
 		idx := fieldIndex[itrIndex]
 		if idx >= 0 {
 			srcColMeta = &srcMeta.colMeta[idx]
 		}
 
 		// merge full segments(full segment: rows in segment EQ 1000)
-		for segIndex := c.segmentIndex; segIndex < len(tm.entries); segIndex++ {
+		// only the chunk at which the previous file stopped is resumed in the middle
+		segStart := 0
+		if itrIndex == c.iteratorStart {
+			segStart = c.segmentIndex
+		}
+		for segIndex := segStart; segIndex < len(tm.entries); segIndex++ {
 			if c.isClosed() {
 				err = ErrCompStopped
 				return
@@ -864,7 +872,7 @@ func (c *StreamIterators) compactColumn(dstIdx int, ref record.Field, needCalPre
 		}
 	}
 
-	err = c.writeLastSegment(segmentN, ref, id)
+	err = c.writeLastSegment(segmentN, ref, id, needCalPreAgg)
 
 	return
 }
@@ -887,10 +895,10 @@ func (c *StreamIterators) appendNilSegment(tmData []byte, ref record.Field, need
 	return nil
 }
 
-func (c *StreamIterators) writeLastSegment(segmentN int, ref record.Field, id uint64) error {
+func (c *StreamIterators) writeLastSegment(segmentN int, ref record.Field, id uint64, needCalPreAgg bool) error {
 	if c.col.Len > 0 {
 		if segmentN < c.Conf.maxSegmentLimit {
-			if err := c.writeSegment(id, ref, false); err != nil {
+			if err := c.writeSegment(id, ref, needCalPreAgg); err != nil {
 				return err
 			}
 		} else {
